@@ -34,7 +34,8 @@ class Case:
         S = self.S
         n = len(S)
         textlen = sum(len(s) + 1 for s in S)
-        return {"kind": self.kind, "state": self.state, "opt": self.opt, "p1": self.p[0], "p2": self.p[1], "p3": self.p[2], "n": n, "L": max(len(s) for s in S),
+        lcps = [gen.lcp(S[i], S[i + 1]) for i in range(n - 1)] if max(len(s) for s in S) >= 16384 else []
+        return {"kind": self.kind, "state": self.state, "opt": self.opt, "p1": self.p[0], "p2": self.p[1], "p3": self.p[2], "n": n, "L": max(len(s) for s in S), "lcps": lcps,
                 "textlen": textlen, "classes": gen.input_classes(S, self.bs()), "memalloc": self.memalloc, "iname": self.iname, "bs": self.bs(), "S": S}
     def describe(self):
         return {"kind": self.kind, "params": list(self.p), "input": self.iname, "n": len(self.S), "state": self.state, "opt": self.opt, "ops": list(self.ops), "memalloc": self.memalloc, "seed": self.seed}
